@@ -1,7 +1,7 @@
 (* Correspondence harness for PCTSP / SPCTSP (C01-C06): the model at float32 rounding ([f32]) against recorded
    traces, and the exact specification evaluated on the implementation's own episodes. *)
 From Coq Require Import ZArith List Bool Lia Arith.
-From RL4CO Require Import Base.Num Base.EnvSig Spec.Routes Env.PCTSP Env.PCTSPProofs Harness.HEnv.
+From RL4CO Require Import Base.Num Base.EnvSig Spec.Routes Env.PCTSP Env.PCTSPProofs Harness.HEnv Harness.HBook.
 Import ListNotations.
 Open Scope Z_scope.
 
@@ -70,3 +70,12 @@ Definition check_C06 (c : pctsp_case) : Z := c06_verdict (c_inst c) (trace_actio
 (* a solution given directly as an action list (hand-built or corrupted), with the implementation's verdict *)
 Definition check_C06_sol (c : pctsp_inst * list nat * bool) : Z :=
   match c with (i, acts, verdict) => c06_verdict i acts verdict end.
+
+(* ---------------------------------------------------------------- bookkeeping (C02 / C04, see Harness/HBook.v)
+   keys of the env's step output compared after every step, in this order:
+   i (= number of steps taken), current_node (= the action just taken), cur_total_prize, visited (bit j = node j) *)
+Definition book_obs (s : pctsp_st) : list Z := [Z.of_nat (pstep s); Z.of_nat (pcur s); tprize s; bitsZ (pvis s)].
+Definition book_kinds : list nat := [1; 2; 0; 0]%nat.
+Definition pctsp_book := (pctsp_inst * list Z * list Z * list (nat * list Z))%type.
+Definition check_book (c : pctsp_book) : Z :=
+  match c with (i, tols, o0, tr) => book_check (PCTSP f32) i book_obs book_kinds tols o0 tr end.
